@@ -4,7 +4,6 @@ package c12
 import (
 	"bytes"
 	"fmt"
-	"os"
 	"strings"
 	"testing"
 
@@ -78,11 +77,8 @@ func genCase(t *rapid.T) Case {
 }
 
 func runCase(c Case, x *h.Ctx) {
-	dir, err := os.MkdirTemp("", "c12-")
-	if err != nil {
-		panic(err)
-	}
-	defer os.RemoveAll(dir)
+	dir, doneDir := sim.TempDir("c12-")
+	defer doneDir()
 	byz := make([]bool, len(c.Powers))
 	for _, i := range c.Byz {
 		byz[i] = true
